@@ -23,7 +23,9 @@ import (
 	"fmt"
 	"math"
 	"sort"
+	"strconv"
 	"sync"
+	"sync/atomic"
 	"time"
 
 	"gonum.org/v1/gonum/graph"
@@ -53,6 +55,7 @@ type dworld struct {
 	K       string     `json:"k"`
 	Idx     int        `json:"idx"`
 	N       int        `json:"n"`
+	Goals   []int      `json:"goals"` // the goals the scripts may use (absent: every node)
 	E       [][3]int64 `json:"e"`
 	H       [][]int64  `json:"h"`
 	Tab     dtab       `json:"tab"`
@@ -76,11 +79,33 @@ type dscript struct {
 func dstarID(m int64) int64 { return m*7 - 11 } // non-contiguous, includes negative ids
 
 type planner struct {
-	n   int
-	g   *simple.WeightedDirectedGraph
-	d   *dynamic.DStarLite
-	h   [][]int64
-	err string
+	n    int
+	g    *simple.WeightedDirectedGraph
+	d    *dynamic.DStarLite
+	h    [][]int64
+	err  string
+	hung bool
+}
+
+// watchdog limit of one planner call (replays on tiny worlds: a call takes microseconds). A call
+// that does not return leaks its goroutine, which may allocate without bound: the first hang
+// ends the replay (hangSeen), the failure carries the signature path:DStarLite:hang.
+var (
+	dstarLimit = 20 * time.Second
+	hangSeen   atomic.Bool
+)
+
+func (p *planner) call(what string, f func()) string {
+	o := core.CallTimeout(dstarLimit, f)
+	if o.Hung {
+		p.hung = true
+		hangSeen.Store(true)
+		return what + " did not return within " + dstarLimit.String()
+	}
+	if o.Panicked {
+		return what + ": " + o.Text
+	}
+	return ""
 }
 
 func newPlanner(n int, e [][3]int64, h [][]int64, s, t int, heur string) *planner {
@@ -100,12 +125,9 @@ func newPlanner(n int, e [][3]int64, h [][]int64, s, t int, heur string) *planne
 			return float64(h[(a.ID()+11)/7-1][(b.ID()+11)/7-1])
 		}
 	}
-	o := core.CallTimeout(20*time.Second, func() {
+	p.err = p.call("NewDStarLite", func() {
 		p.d = dynamic.NewDStarLite(simple.Node(dstarID(int64(s))), simple.Node(dstarID(int64(t))), p.g, hf, simple.NewWeightedDirectedGraph(0, math.Inf(1)))
 	})
-	if o.Hung || o.Panicked {
-		p.err = "NewDStarLite: " + o.Text
-	}
 	return p
 }
 
@@ -124,9 +146,8 @@ func inSet(s []int64, x int) bool {
 func (p *planner) checkPath(tab *dtab, t int) string {
 	var ns []graph.Node
 	var w float64
-	o := core.CallTimeout(20*time.Second, func() { ns, w = p.d.Path() })
-	if o.Hung || o.Panicked {
-		return "Path(): " + o.Text
+	if m := p.call("Path()", func() { ns, w = p.d.Path() }); m != "" {
+		return m
 	}
 	here := p.here()
 	want := tab.D[here-1][t-1]
@@ -157,9 +178,11 @@ func modelIDs(ns []graph.Node) []int {
 func (p *planner) step(tab *dtab, t int) (moved bool, problem string) {
 	from := p.here()
 	var ret bool
-	o := core.CallTimeout(20*time.Second, func() { ret = p.d.Step() })
-	if o.Hung || o.Panicked {
-		return false, "Step(): " + o.Text
+	if m := p.call("Step()", func() { ret = p.d.Step() }); m != "" {
+		return false, m
+	}
+	if m := p.call("Here() after Step()", func() { p.d.Here().ID() }); m != "" {
+		return false, m
 	}
 	if ret != (from != t) {
 		return ret, fmt.Sprintf("Step() at %d (goal %d) returned %v", from, t, ret)
@@ -182,16 +205,18 @@ func (p *planner) update(ch [][3]int64) string {
 		p.g.SetWeightedEdge(simple.WeightedEdge{F: simple.Node(dstarID(c[0])), T: simple.Node(dstarID(c[1])), W: float64(c[2])})
 		es = append(es, p.g.Edge(dstarID(c[0]), dstarID(c[1])))
 	}
-	o := core.CallTimeout(20*time.Second, func() { p.d.UpdateWorld(es) })
-	if o.Hung || o.Panicked {
-		return "UpdateWorld: " + o.Text
-	}
-	return ""
+	return p.call("UpdateWorld", func() { p.d.UpdateWorld(es) })
 }
 
 // runScript executes one script; it returns "" or the first disagreement.
 func runScript(sc *dscript, heur string) (what, msg string) {
-	p := newPlanner(sc.N, sc.E, sc.H, sc.S, sc.T, heur)
+	var p *planner
+	defer func() {
+		if p != nil && p.hung {
+			what = "hang"
+		}
+	}()
+	p = newPlanner(sc.N, sc.E, sc.H, sc.S, sc.T, heur)
 	if p.err != "" {
 		return "new", p.err
 	}
@@ -233,6 +258,9 @@ func runScript(sc *dscript, heur string) (what, msg string) {
 
 func replayDStarTables(in *core.Lines, args []string, seed int64, sum *core.Summary) error {
 	heur := argOf(args, "heur", "spec")
+	if ms, err := strconv.Atoi(argOf(args, "limitms", "")); err == nil && ms > 0 {
+		dstarLimit = time.Duration(ms) * time.Millisecond
+	}
 	maxSteps := 3
 	type job struct{ line []byte }
 	jobs := make(chan job, 16)
@@ -274,9 +302,20 @@ func replayDStarTables(in *core.Lines, args []string, seed int64, sum *core.Summ
 						continue
 					}
 					sort.Slice(wd.Changes, func(a, b int) bool { return fmt.Sprint(wd.Changes[a].Ch) < fmt.Sprint(wd.Changes[b].Ch) })
+					isGoal := func(t int) bool {
+						if wd.Goals == nil {
+							return true
+						}
+						for _, g := range wd.Goals {
+							if g == t {
+								return true
+							}
+						}
+						return false
+					}
 					for s := 1; s <= wd.N; s++ {
 						for t := 1; t <= wd.N; t++ {
-							if s == t {
+							if s == t || !isGoal(t) {
 								continue
 							}
 							for k := 0; k <= maxSteps; k++ {
@@ -291,6 +330,9 @@ func replayDStarTables(in *core.Lines, args []string, seed int64, sum *core.Summ
 				}
 				cases++
 				for _, sc := range list {
+					if hangSeen.Load() {
+						break // a leaked planner goroutine is still running: stop here
+					}
 					scripts++
 					if sc.St > 0 {
 						nontriv++
